@@ -34,6 +34,14 @@ func (o *objectIncludeStrategy) evaluate(m *MethodEvaluator) error {
 		return err
 	}
 
+	// include / extend at the end of a line names no module: the line break
+	// must not become a parent called "\n"
+	if nextT == nil || nextT.IsNewLineIdentifier() {
+		m.parser.Unget()
+
+		return fmt.Errorf("syntax error: module name expected")
+	}
+
 	classNode := base.ClassNode{Frame: m.ctx.GetFrame(), Class: m.ctx.GetClass()}
 
 	parentFrame, parentNamespace, parentClass :=
